@@ -10,39 +10,39 @@ E3 = "E3 choice-tape explorer (vmc/engines/choice.py)"
 # id: (engine, technique, level text, level note, design ref)
 CHECKS = {
  "C19": (E1, "exhaustive enumeration of the composition lattice through the real plotting code on the Agg backend (figure geometry read back, exact rational containment) and the full product of entry points x argument configurations",
-         "Every composition to total 12 (quick) / 30 (thorough) is plotted with show_phaseDiagramPlot(getFig=True); the marker must be at (f+,f-) and, in exact rationals, inside the drawn polygon whose index is get_phasePlotRegion(). 2 (quick) / 8 (thorough) entry-point families (show with and without getFig, save) x 96 argument configurations on three sequences are checked for marker coordinates, title, axis labels, limits, point labels and font, returned figure; every entry point x {png,pdf,svg}; the four linear plots (show and save) against get_linear_* bar by bar.",
+         "Every composition to total 12 (quick) / 30 (thorough) is plotted with show_phaseDiagramPlot(getFig=True); the marker must be at (f+,f-) and, in exact rationals, inside the drawn polygon whose index is get_phasePlotRegion(). 2 (quick) / 8 (thorough) entry-point families (show with and without getFig, save) x 96 argument configurations on three sequences are checked for marker coordinates, title, axis labels, limits, point labels and font, returned figure; every entry point x {png,pdf,svg}; the four linear plots (show and save) against get_linear_* bar by bar. Beyond the figures, polygons read once from a real figure are tested against every composition to total 80/150; multi-sequence entry points are called with varying numbers of unlabelled sequences, after a rejected call without closing, and every homopolymer X^n (n<=40/120) is drawn.",
          "Figures are inspected in memory (savefig is wrapped; real files are written for the format cases). File byte format, legend contents and label offsets are not judged.",
          "DESIGN.md section 4 C19"),
  "C17": (E3, "stateless exploration of all outcomes of the internal random draws through a scripted random.Random: complete choice trees for the shuffles/swaps x every frozen subset, deviation-bounded tapes with horizon and retry bound for the two retry-loop moves, plus explicit-state BFS over chains of moves on live objects",
-         "For every charge pattern to length 5 (quick) / 6 (thorough) in a distinct-letter spelling, cached or not: swapRes on all (i,j); the complete tree of random outcomes of full_shuffle, swapRandChargeRes, get_shuffled_sequence and get_permutant for every frozen subset; permute_block_swap / permute_cluster_charges on all 729 6-mer patterns (thorough also all <=4-run 8-mers) within 1 (quick) / 2 (thorough) deviations of seeded base tapes; chains of moves from 3/5 roots to the fixpoint of the arrangement graph. ~1M executions in the quick tier, each judged for rearrangement, frozen positions, child bookkeeping vs a fresh object, carried delta-max, unchanged parent and package state. The frozen-argument defect of the two retry-loop moves is a known finding keyed by call site.",
+         "For every charge pattern to length 5 (quick) / 6 (thorough) in a distinct-letter spelling, cached or not: swapRes on all (i,j); the complete tree of random outcomes of full_shuffle, swapRandChargeRes, get_shuffled_sequence and get_permutant for every frozen subset; permute_block_swap / permute_cluster_charges on all 729 6-mer patterns (thorough also all <=4-run 8-mers) within 1 (quick) / 2 (thorough) deviations of seeded base tapes; chains of moves from 3/5 roots to the fixpoint of the arrangement graph. ~1M executions in the quick tier, each judged for rearrangement, frozen positions, child bookkeeping vs a fresh object, carried delta-max, unchanged parent and package state. The frozen-argument defect of the two retry-loop moves is a known finding keyed by call site. With warmed parent caches the child's SCD/delta/FCR/NCPR/counts/hydropathy must equal a fresh object's; two-move sequences with a different frozen set per move (complete trees) and one frozen-set object reused on a short and then a longer sequence are explored.",
          "Randomness is owned via the module attribute rng of backend/sequence.py; executions cut by the horizon (60 choice points) or the retry bound (3 candidate children) are counted as truncated and not judged.",
          "DESIGN.md section 2.1-E3, section 4 C17"),
  "C18": (E3, "stateless deviation-bounded exploration of the random tape of whole Wang-Landau runs, lock-step with a reference WL machine driven by the guarded per-step hook; every model trace is validated against the implementation by construction",
-         "3 (quick) / 10 (thorough) configurations x 6/16 seeded base tapes: all tapes within 1 deviation of every base tape, within 2 of the shortest (thorough: three shortest) and within 3 of one; acceptance draws are placed on both sides of the model-computed acceptance probability. At every hook event the reference machine checks the proposal (rearrangement, true kappa, bin, range test), the acceptance probability, the decision, the g/H update of the occupied bin, the flat-check schedule, flatness test, f schedule, histogram reset and the stop condition; completed runs are checked against the returned array and the six output files.",
+         "3 (quick) / 10 (thorough) configurations x 6/16 seeded base tapes: all tapes within 1 deviation of every base tape, within 2 of the shortest (thorough: three shortest) and within 3 of one; acceptance draws are placed on both sides of the model-computed acceptance probability. At every hook event the reference machine checks the proposal (rearrangement, true kappa, bin, range test), the acceptance probability, the decision, the g/H update of the occupied bin, the flat-check schedule, flatness test, f schedule, histogram reset and the stop condition; completed runs are checked against the returned array and the six output files. Bin geometry is checked by construction on a grid of (nbins, binmin, binmax); one configuration runs the same machine twice; four same-composition sequences are run one after another in a fresh package.",
          "Needs the guarded hook commit in backend/wang_landau.py; runs that exceed 400 choice points or the in-move retry bound are truncated and only checked step-wise; statistical properties of the sampler are not claimed.",
          "DESIGN.md section 4 C18"),
  "C15": (E2, "explicit-state BFS over read-only call histories on 3/5 live objects to the canonical-state fixpoint (no depth bound), differential oracle against pristine first calls, merge validation",
-         "State = full serialisation of every live object plus every localcider function's defaults/attributes/closures, module globals, class attributes and numpy/matplotlib global settings. All 168 (quick) / 280 (thorough) calls are executed from every reachable state (54 states / 18k transitions in the quick tier); each result must be bit-identical to the same call made first on a fresh object; alternative histories reaching a known state are expanded as well and must agree (merge validation). Because the search closes at a fixpoint it covers all finite histories over this alphabet.",
+         "State = full serialisation of every live object plus every localcider function's defaults/attributes/closures, module globals, class attributes and numpy/matplotlib global settings. All 168 (quick) / 280 (thorough) calls are executed from every reachable state (54 states / 18k transitions in the quick tier); each result must be bit-identical to the same call made first on a fresh object; alternative histories reaching a known state are expanded as well and must agree (merge validation). Because the search closes at a fixpoint it covers all finite histories over this alphabet. Phase 1b runs every ordered pair of calls on the same object explicitly (independent of state merging); phase 2 runs every ordered pair of 56 (quick) / 90 (thorough) inputs chosen to collide on coarse cache keys (equal charge counts at different lengths, equal composition in other spellings, 150-250-residue sparse sequences) in a freshly imported package and compares each with its solo result. A state space that does not close is reported as capped, never as a violation.",
          "Assumes state outside the serialisation (third-party private state) does not influence results; argument values are a finite menu.",
          "DESIGN.md section 2.1-E2, section 4 C15"),
  "C16": (E2, "explicit-state BFS over set/clear histories per sequence with a list reference model, to the fixpoint; exhaustive over words and argument alphabet",
-         "For every word over {S,Y,K,G} to length 3 (quick) / {S,T,Y,K,E,G} to length 4 and {S,Y,K}^5 (thorough) and two 12-mers, every history of set_phosphosites/clear_phosphosites over the full argument alphabet (all ints -(N+2)..N+2, all ordered pairs as list and tuple, duplicates) is explored until no new site list appears; every transition is compared with the list model and every state with the derived-value invariants (phosphosequence, kappa after phosphorylation, 2^k distribution in binary order, S/T/Y sites).",
+         "For every word over {S,Y,K,G} to length 3 (quick) / {S,T,Y,K,E,G} to length 4 and {S,Y,K}^5 (thorough) and two 12-mers, every history of set_phosphosites/clear_phosphosites over the full argument alphabet (all ints -(N+2)..N+2, all ordered pairs as list and tuple, duplicates) is explored until no new site list appears; every transition is compared with the list model and every state with the derived-value invariants (phosphosequence, kappa after phosphorylation, 2^k distribution in binary order, S/T/Y sites). Read-only phospho queries are interleaved into histories, and for every ordered pair of reachable site lists the two-epoch history set / query / clear / set is run on one object; kappa after phosphorylation is asked with and without the object's own delta-max cached; bystander objects must stay empty.",
          "Non-integer positions are outside the property; other object state is C15's job.",
          "DESIGN.md section 4 C16"),
  "C20": (E2, "explicit-state BFS over palette-update histories with a dict reference model to the fixpoint; exhaustive rendering of short words and block-boundary lengths in every palette state",
-         "All palette states reachable with 19 valid palettes and every single fault of them are explored (19 states, ~18k transitions quick); accepted iff valid, commit only after validation; in every state every 1-2 residue word and the 20 rotations of the 20-letter cycle at block-boundary lengths (thorough: every length 1..120) are rendered and parsed token by token.",
+         "All palette states reachable with 19 valid palettes and every single fault of them are explored (19 states, ~18k transitions quick); accepted iff valid, commit only after validation; in every state every 1-2 residue word and the 20 rotations of the 20-letter cycle at block-boundary lengths (thorough: every length 1..120) are rendered and parsed token by token. Bystander and later-created objects must keep the default palette; a caller-edited dictionary must not change the palette; in a fresh package the first object's palette must not leak into later objects.",
          "Upper-case colour names and extra keys are unspecified (dont-care).",
          "DESIGN.md section 4 C20"),
  "C11": (E1, "exhaustive enumeration of words x complexity type x alphabet x window x step x word size (inputs x configurations); differential locality oracle plus independent entropy reference",
-         "Every {L,K,F} word to length 5/7 and {A,S,T,D,E} word to length 4/6 under every (type, alphabet, window 1..N+1, step 1..N, word size 1..6) combination: shape, position row, range, locality against the one-window profile of a fresh object, WF against an independent Shannon entropy on the independently reduced window; all (N,w,s) triples to N=24/40 for shape/positions; unknown types and w>N rejected.",
+         "Every {L,K,F} word to length 5/7 and {A,S,T,D,E} word to length 4/6 under every (type, alphabet, window 1..N+1, step 1..N, word size 1..6) combination: shape, position row, range, locality against the one-window profile of a fresh object, WF against an independent Shannon entropy on the independently reduced window; all (N,w,s) triples to N=24/40 for shape/positions; unknown types and w>N rejected. All configurations of a word are asked of one live object; windows with equal reduced strings must give equal values; an array returned earlier must not change; a long-then-short scenario in a fresh package.",
          "LC and LZW values are only constrained by range and locality (the statement gives no formula for them).",
          "DESIGN.md section 4 C11"),
  "C12": (E1, "exhaustive enumeration of 12 sizes x 20 residues, all sizes -1..26, word pairs for the homomorphism laws, and every single fault of user alphabets",
-         "Exhaustive over (size, residue) against the documented partition table; exact acceptance set of sizes; concatenation/idempotence/length laws on 8 400 (quick) / 168 000 (thorough) word pairs x 12 sizes; four valid user alphabets with all 140 single faults each and six non-dict arguments.",
+         "Exhaustive over (size, residue) against the documented partition table; exact acceptance set of sizes; concatenation/idempotence/length laws on 8 400 (quick) / 168 000 (thorough) word pairs x 12 sizes; four valid user alphabets with all 140 single faults each and six non-dict arguments. Sizes are also swept three times on one reused object through both entry points; user alphabets, faulty ones and predefined sizes are interleaved on one object.",
          "Partition table pinned from the docstring; extra keys in a user alphabet are unspecified.",
          "DESIGN.md section 4 C12"),
  "C13": (E1, "exhaustive enumeration of all strings over a 17-symbol alphabet to length 4/5 and of every code point inserted at every position of three hosts; oracle transcribed from the statement",
-         "All 88 741 (quick) / 1.5 M (thorough) strings over an alphabet with one representative per behaviour class (valid upper/lower residues, five kinds of whitespace, invalid letters, digits, punctuation, NUL, case-folding specials), every code point up to U+024F (quick) / the whole BMP (thorough) at every position of three hosts, and 13 non-strings: accept iff the normal form is a residue word, then sequence/length/len and a 32-entry API vector equal those of the normal form.",
+         "All 88 741 (quick) / 1.5 M (thorough) strings over an alphabet with one representative per behaviour class (valid upper/lower residues, five kinds of whitespace, invalid letters, digits, punctuation, NUL, case-folding specials), every code point up to U+024F (quick) / the whole BMP (thorough) at every position of three hosts, and 13 non-strings: accept iff the normal form is a residue word, then sequence/length/len and a 32-entry API vector equal those of the normal form. Accepted mixed-case residues are also handed over as a backend Sequence / SequencePermutants; in a fresh package sequence files are parsed before strings are constructed and vice versa.",
          "str subclasses not judged.",
          "DESIGN.md section 4 C13"),
  "C14": (E1, "exhaustive enumeration of all file texts over 8/9 symbols to length 6/8 through an in-memory open(), all structured layouts and their single-character corruptions; three-verdict reference parser",
@@ -54,7 +54,7 @@ CHECKS = {
          "Relations only - values are judged by C01-C03, C06, C07.",
          "DESIGN.md section 4 C05"),
  "C06": (E1, "exhaustive enumeration of words x all 81 group assignments (inputs x configurations), differential oracle through the real kappa of the independently recoded sequence",
-         "Every {K,E,P,G} word of length 1..3 and 5 (thorough 1..6) under all 81 assignments of its letters to the two groups, with swapped groups, member order, letter case and padding by absent residues; one-group vs complementary call; Omega == kappa(recoded) == kappa_X(PEDKR); kappa == kappa_X(ED,KR); Omega string; invalid members rejected at every position.",
+         "Every {K,E,P,G} word of length 1..3 and 5 (thorough 1..6) under all 81 assignments of its letters to the two groups, with swapped groups, member order, letter case and padding by absent residues; one-group vs complementary call; Omega == kappa(recoded) == kappa_X(PEDKR); kappa == kappa_X(ED,KR); Omega string; invalid members rejected at every position. All calls of a word are repeated in forward and reverse order on reused objects; collision histories (every prefix split of sorted letter sets, Omega, kappa) and calls with overlapping groups followed by specified calls run on one object; every {PEDKR, other} word to length 10/13 for Omega.",
          "Overlapping groups and an empty second group are unspecified and not judged.",
          "DESIGN.md section 4 C06"),
  "C09": (E1, "exhaustive enumeration of the 9-class composition lattice x a pH grid; independent Henderson-Hasselbalch reference; call-count bound on the pI search",
@@ -70,7 +70,7 @@ CHECKS = {
          "delta and delta-max are taken from the same API (their values are C02/C03's job); the list of known kappa>1 orbits is complete only for the explored space.",
          "DESIGN.md section 4 C01, section 5 F-KAPPA"),
  "C03": (E1, "bounded-exhaustive enumeration of the composition lattice (n+,n-,n0), several presentations per composition, exact rational reference for the documented search family",
-         "Every composition up to total 24 (quick) / 45 (thorough) - covering all four search regimes, the 17/18-neutral boundary and block-length ties - is presented in up to five arrangements/spellings; delta-max must equal the exact maximum over the independently generated documented family, the returned permutant must be a rearrangement whose real get_delta() equals it, and all arrangements of every composition of total <=7/8 must agree.",
+         "Every composition up to total 24 (quick) / 45 (thorough) - covering all four search regimes, the 17/18-neutral boundary and block-length ties - is presented in up to five arrangements/spellings; delta-max must equal the exact maximum over the independently generated documented family, the returned permutant must be a rearrangement whose real get_delta() equals it, and all arrangements of every composition of total <=7/8 must agree. Beyond that lattice every composition with at least 18 neutrals up to total 32 (quick) / 50, and with minority charge <=6 up to total 80 (thorough), is checked; each presentation uses a different residue spelling so that a permutant remembered from another object cannot pass.",
          "Trusts vmc/refmodel/charge.py:dmax_family as the reading of the documented search; compositions above the bound are not covered.",
          "DESIGN.md section 4 C03"),
  "C04": (E1, "exhaustive enumeration of all residue words up to length 3/4 and of two-residue block sequences, exact per-residue reference tables",
@@ -78,7 +78,7 @@ CHECKS = {
          "Trusts the pinned tables in vmc/refmodel/tables.py.",
          "DESIGN.md section 4 C04"),
  "C07": (E1, "bounded-exhaustive enumeration of charge patterns, independent reference for the double sum",
-         "Every charge pattern to length 10/12, 17 spellings to length 6/8 and all <=3-run patterns to length 20/40 through the real get_SCD(), compared with an independent evaluation of the Sawle-Ghosh sum.",
+         "Every charge pattern to length 10/12, 17 spellings to length 6/8 and all <=3-run patterns to length 20/40 through the real get_SCD(), compared with an independent evaluation of the Sawle-Ghosh sum. Structured long families to 256/1000 residues and every length 2..200/520 ascending and descending in a freshly imported package.",
          "Reference in vmc/refmodel/charge.py:scd; float tolerance 1e-9 relative.",
          "DESIGN.md section 4 C07"),
  "C08": (E1, "exhaustive enumeration of the composition lattice, exact rational threshold cascade",
@@ -86,7 +86,7 @@ CHECKS = {
          "Rational cascade in vmc/refmodel/charge.py:region.",
          "DESIGN.md section 4 C08"),
  "C02": (E1, "bounded-exhaustive explicit-state enumeration of charge patterns, lock-step exact rational reference model",
-         "Every charge pattern up to the length bound (quick 10, thorough 13), in spellings that use all 20 residues, plus all <=3-run patterns to length 20/40, is fed to the real get_delta() and compared with exact Fraction evaluation of the Das-Pappu definition. Exhaustive within the bound; the algorithm is a 5/6-residue window fold, so the small scope contains every regime.",
+         "Every charge pattern up to the length bound (quick 10, thorough 13), in spellings that use all 20 residues, plus all <=3-run patterns to length 20/40, is fed to the real get_delta() and compared with exact Fraction evaluation of the Das-Pappu definition. Exhaustive within the bound; the algorithm is a 5/6-residue window fold, so the small scope contains every regime. Structured long families to 256/1000 residues and every length 1..200/520 ascending and descending in a freshly imported package.",
          "Trusts the reference model in vmc/refmodel/charge.py and the pinned charge classes in vmc/refmodel/tables.py; sequences longer than the bounds are not covered.",
          "DESIGN.md section 4 C02"),
 }
